@@ -10,6 +10,7 @@ import (
 	"fmt"
 	"io"
 	"sort"
+	"sync"
 	"testing"
 	"testing/synctest"
 	"time"
@@ -102,7 +103,11 @@ type Input struct {
 	Relays      []Relay     `json:"relays"`
 	SubmitOK    bool        `json:"submit_ok"`
 	Deadline    uint64      `json:"deadline"`
-	Tags        []string    `json:"tags,omitempty"`
+	// how long the accounts provider and the account's RANDAO signing take (ms of fake time; they
+	// matter when Prepare calls of several duties overlap)
+	AccLat  uint64   `json:"acc_lat,omitempty"`
+	SignLat uint64   `json:"sign_lat,omitempty"`
+	Tags    []string `json:"tags,omitempty"`
 	// A history on ONE service instance: the further duties this same proposer service (and signer)
 	// handles, each with its own environment answers, and the order of the Prepare / Propose calls.
 	// Duty 0 is this input, duty k is Others[k-1].  What belongs to the service's construction (spe,
@@ -117,6 +122,10 @@ type Input struct {
 type Op struct {
 	Duty int    `json:"duty"`
 	Op   string `json:"op"` // prepare | propose
+	// a Prepare call made in its own goroutine: the next call of the order starts without waiting for
+	// it (the controller prepares all the duties of an epoch at once); every such call has returned
+	// before the next call without this flag starts
+	Go bool `json:"go,omitempty"`
 }
 
 type Obs struct {
@@ -272,6 +281,9 @@ func schedule(in *Input, ds []*Input) []Op {
 			prepared[op.Duty]++
 		case "propose":
 			proposed[op.Duty]++
+			if op.Go {
+				valid = false
+			}
 		default:
 			valid = false
 		}
@@ -291,9 +303,9 @@ func schedule(in *Input, ds []*Input) []Op {
 	var ops []Op
 	for k, d := range ds {
 		if d.DoPrepare {
-			ops = append(ops, Op{k, "prepare"})
+			ops = append(ops, Op{Duty: k, Op: "prepare"})
 		}
-		ops = append(ops, Op{k, "propose"})
+		ops = append(ops, Op{Duty: k, Op: "propose"})
 	}
 	return ops
 }
@@ -334,8 +346,13 @@ func runSession(t *testing.T, in *Input) []Obs {
 			}
 		}()
 		synctest.Test(t, func(t *testing.T) {
-			rec := &recorder{start: time.Now()}
-			w := &world{in: in, rec: rec, tab: &bodyTable{m: map[phase0.Root]uint64{}}}
+			tab := &bodyTable{m: map[phase0.Root]uint64{}}
+			rt := &router{head: in}
+			worlds := make([]*world, len(ds))
+			for k, d := range ds {
+				worlds[k] = newWorld(d, tab)
+			}
+			rt.cur = worlds[0]
 			level := zerolog.Disabled
 			if in.Trace {
 				level = zerolog.TraceLevel
@@ -345,8 +362,8 @@ func runSession(t *testing.T, in *Input) []Obs {
 				standardsigner.WithLogLevel(level),
 				standardsigner.WithMonitor(nullmetrics.New()),
 				standardsigner.WithClientMonitor(nullmetrics.New()),
-				standardsigner.WithSpecProvider(w),
-				standardsigner.WithDomainProvider(w),
+				standardsigner.WithSpecProvider(rt),
+				standardsigner.WithDomainProvider(rt),
 			)
 			if err != nil {
 				t.Fatalf("signer constructor: %v", err)
@@ -355,10 +372,10 @@ func runSession(t *testing.T, in *Input) []Obs {
 				standardproposer.WithLogLevel(level),
 				standardproposer.WithMonitor(nullmetrics.New()),
 				standardproposer.WithChainTime(mocks.NewChainTime(in.SPE)),
-				standardproposer.WithProposalDataProvider(w),
-				standardproposer.WithValidatingAccountsProvider(w),
-				standardproposer.WithExecutionChainHeadProvider(w),
-				standardproposer.WithProposalSubmitter(w),
+				standardproposer.WithProposalDataProvider(rt),
+				standardproposer.WithValidatingAccountsProvider(rt),
+				standardproposer.WithExecutionChainHeadProvider(rt),
+				standardproposer.WithProposalSubmitter(rt),
 				standardproposer.WithRANDAORevealSigner(signer),
 				standardproposer.WithBeaconBlockSigner(signer),
 				standardproposer.WithBlobSidecarSigner(signer),
@@ -366,10 +383,10 @@ func runSession(t *testing.T, in *Input) []Obs {
 				standardproposer.WithBuilderBoostFactor(in.Boost),
 			}
 			if in.Graffiti != "none" {
-				params = append(params, standardproposer.WithGraffitiProvider(graffiti{w}))
+				params = append(params, standardproposer.WithGraffitiProvider(rGraffiti{rt}))
 			}
 			if in.Auction != "none" {
-				params = append(params, standardproposer.WithBlockAuctioneer(&auctioneer{w: w}))
+				params = append(params, standardproposer.WithBlockAuctioneer(rAuctioneer{rt}))
 			}
 			svc, err := standardproposer.New(ctx0, params...)
 			if err != nil {
@@ -379,39 +396,53 @@ func runSession(t *testing.T, in *Input) []Obs {
 			// the duty objects, as the controller creates them when it learns of the duties
 			dutyObjs := make([]*beaconblockproposer.Duty, len(ds))
 			for k, d := range ds {
-				w.begin(d)
 				duty := beaconblockproposer.NewDuty(phase0.Slot(d.Slot), phase0.ValidatorIndex(d.Validator))
 				if d.PreAccount != nil {
-					duty.SetAccount(w.newAccount(*d.PreAccount))
+					duty.SetAccount(worlds[k].newAccount(*d.PreAccount))
 				}
 				duty.SetRandaoReveal(sigOf(d.PreRandao))
 				dutyObjs[k] = duty
 			}
 
+			prepare := func(k int) {
+				o, w := &obs[k], worlds[k]
+				w.begin(false)
+				func() {
+					defer func() {
+						if r := recover(); r != nil {
+							o.Panic = true
+							o.PanicMsg = fmt.Sprintf("Prepare: %v", r)
+						}
+					}()
+					o.PrepOK = svc.Prepare(rt.with(ctx0, w), dutyObjs[k]) == nil
+				}()
+				w.rec.mu.Lock()
+				o.PrepEvents = w.rec.events
+				w.rec.mu.Unlock()
+			}
+			var pending sync.WaitGroup
 			for _, op := range ops {
 				k, d, duty := op.Duty, ds[op.Duty], dutyObjs[op.Duty]
-				o := &obs[k]
-				w.begin(d)
-				if op.Op == "prepare" {
-					func() {
-						defer func() {
-							if r := recover(); r != nil {
-								o.Panic = true
-								o.PanicMsg = fmt.Sprintf("Prepare: %v", r)
-							}
-						}()
-						o.PrepOK = svc.Prepare(ctx0, duty) == nil
+				if op.Op == "prepare" && op.Go {
+					pending.Add(1)
+					go func() {
+						defer pending.Done()
+						prepare(k)
 					}()
-					synctest.Wait()
-					rec.mu.Lock()
-					o.PrepEvents = rec.events
-					rec.mu.Unlock()
 					continue
 				}
+				pending.Wait()
+				synctest.Wait()
+				if op.Op == "prepare" {
+					prepare(k)
+					continue
+				}
+				o, w := &obs[k], worlds[k]
+				w.begin(true)
 				o.PostAccount = accountID(duty.Account())
 				reveal := duty.RANDAOReveal()
 				o.PostRandao = get(reveal[:])
-				ctx, cancel := context.WithTimeout(ctx0, time.Duration(d.Deadline)*time.Millisecond)
+				ctx, cancel := context.WithTimeout(rt.with(ctx0, w), time.Duration(d.Deadline)*time.Millisecond)
 				func() {
 					defer func() {
 						if r := recover(); r != nil {
@@ -421,20 +452,22 @@ func runSession(t *testing.T, in *Input) []Obs {
 					}()
 					svc.Propose(ctx, duty)
 				}()
-				o.Ret = rec.now()
+				o.Ret = w.rec.now()
 				// let every relay goroutine finish
-				if rest := horizon(d) - time.Since(rec.start); rest > 0 {
+				if rest := horizon(d) - time.Since(w.rec.start); rest > 0 {
 					time.Sleep(rest)
 				}
 				synctest.Wait()
 				cancel()
-				rec.mu.Lock()
-				o.Events = rec.events
-				o.Calls = rec.calls
-				o.Submit = rec.submit
-				rec.mu.Unlock()
+				w.rec.mu.Lock()
+				o.Events = w.rec.events
+				o.Calls = w.rec.calls
+				o.Submit = w.rec.submit
+				w.proposing = false
+				w.rec.mu.Unlock()
 				done[k] = true
 			}
+			pending.Wait()
 		})
 	}()
 	for k := range obs {
@@ -971,33 +1004,45 @@ func genHistory(r *Rand) Input {
 	var ops []Op
 	prep := func(k int) {
 		if ds[k].DoPrepare {
-			ops = append(ops, Op{k, "prepare"})
+			ops = append(ops, Op{Duty: k, Op: "prepare"})
 		}
 	}
-	switch kind := r.Intn(8); {
-	case kind < 3:
+	switch kind := r.Intn(10); {
+	case kind < 2:
+		// what the controller does: every duty of the epoch is prepared, all at once in goroutines of
+		// their own, when the epoch's duties are known, and proposed when its slot comes; the accounts
+		// provider and the signer take their time, so that the Prepare calls really overlap
+		head.Shape = "prepare-together-then-propose"
+		for k := range ds {
+			ds[k].AccLat, ds[k].SignLat = uint64(r.Range(0, 30)), uint64(r.Range(0, 30))
+			if ds[k].DoPrepare {
+				ops = append(ops, Op{Duty: k, Op: "prepare", Go: true})
+			}
+		}
+		for k := range ds {
+			ops = append(ops, Op{Duty: k, Op: "propose"})
+		}
+	case kind < 5:
 		head.Shape = "duty-after-duty"
 		for k := range ds {
 			prep(k)
-			ops = append(ops, Op{k, "propose"})
+			ops = append(ops, Op{Duty: k, Op: "propose"})
 		}
-	case kind < 6:
-		// what the controller does: every duty of the epoch is prepared when the epoch's duties are
-		// known, and proposed when its slot comes
+	case kind < 8:
 		head.Shape = "prepare-all-then-propose"
 		for k := range ds {
 			prep(k)
 		}
 		for k := range ds {
-			ops = append(ops, Op{k, "propose"})
+			ops = append(ops, Op{Duty: k, Op: "propose"})
 		}
-	case kind < 7:
+	case kind < 9:
 		head.Shape = "prepare-all-then-propose-reversed"
 		for k := range ds {
 			prep(k)
 		}
 		for k := len(ds) - 1; k >= 0; k-- {
-			ops = append(ops, Op{k, "propose"})
+			ops = append(ops, Op{Duty: k, Op: "propose"})
 		}
 	default:
 		head.Shape = "interleaved"
@@ -1018,7 +1063,7 @@ func genHistory(r *Rand) Input {
 				break
 			}
 			k := live[r.Intn(len(live))]
-			ops = append(ops, Op{k, []string{"prepare", "propose"}[next[k]]})
+			ops = append(ops, Op{Duty: k, Op: []string{"prepare", "propose"}[next[k]]})
 			next[k]++
 		}
 	}
@@ -1030,10 +1075,15 @@ func genHistory(r *Rand) Input {
 func shapeOf(ops []Op, ds []*Input) string {
 	lastPrepare, firstPropose, sequential, inOrder := -1, len(ops), true, true
 	prevPropose := -1
+	for _, op := range ops {
+		if op.Go {
+			return "prepare-together-then-propose"
+		}
+	}
 	for i, op := range ops {
 		if op.Op == "prepare" {
 			lastPrepare = i
-			if i+1 >= len(ops) || ops[i+1] != (Op{op.Duty, "propose"}) {
+			if i+1 >= len(ops) || ops[i+1] != (Op{Duty: op.Duty, Op: "propose"}) {
 				sequential = false
 			}
 		} else {
